@@ -85,6 +85,7 @@ ParseXrefTable(xtoks) ==
     LET x == FoldLeft(XtStep, XtInit, xtoks) IN
     IF x.err # "" THEN [ok |-> FALSE, err |-> x.err, ents |-> <<>>]
     ELSE IF x.ph # "hdr1" THEN [ok |-> FALSE, err |-> "cross-reference table ends inside a subsection", ents |-> <<>>]
+    ELSE IF x.subs = 0 THEN [ok |-> FALSE, err |-> "cross-reference table without a subsection", ents |-> <<>>]
     ELSE [ok |-> TRUE, err |-> "", ents |-> x.ents]
 
 \* each entry is exactly 20 bytes: 10 digits SP 5 digits SP (n|f) then SP CR | SP LF | CR LF;
@@ -127,7 +128,7 @@ ObjAt(objs, off) ==      \* index of the scanned object whose "n g obj" header s
 \* Resolve an indirect stream Length: the referenced object must be an integer object in allobjs
 FixStream(body, o, allobjs) ==
     IF o.val.k # "stream" \/ o.lr = <<>> THEN [ok |-> TRUE, val |-> o.val]
-    ELSE LET li == SelectInSeq(allobjs, LAMBDA q : q.num = o.lr[1] /\ q.gen = o.lr[2]) IN
+    ELSE LET li == SelectLastInSeq(allobjs, LAMBDA q : q.num = o.lr[1] /\ q.gen = o.lr[2]) IN   \* newest definition
          IF li = 0 \/ ~IntSmall(allobjs[li].val) THEN [ok |-> FALSE, val |-> o.val]
          ELSE LET L == IntVal(allobjs[li].val)
                   span == o.re - o.rs + 1
@@ -155,7 +156,7 @@ CheckRevision(body, rev, allobjs) ==
                      THEN [ok |-> FALSE, err |-> "objects in the body and in-use xref entries are not in one-to-one correspondence"]
                 ELSE [ok |-> TRUE, err |-> "", trailer |-> rev.trailer, xrefobj |-> 0,
                       nums |-> {ents[i].num : i \in 1..Len(ents)},
-                      plain |-> objs]
+                      comp |-> <<>>]
     ELSE IF rev.kind = "stream" THEN
         IF objs = <<>> THEN [ok |-> FALSE, err |-> "revision without cross-reference section"]
         ELSE LET xo == objs[Len(objs)] IN
@@ -180,8 +181,29 @@ CheckRevision(body, rev, allobjs) ==
                                      THEN [ok |-> FALSE, err |-> "objects in the body and type-1 entries are not in one-to-one correspondence"]
                                 ELSE [ok |-> TRUE, err |-> "", trailer |-> d, xrefobj |-> xo.num,
                                       nums |-> {ents[i].num : i \in 1..Len(ents)},
-                                      plain |-> objs]
+                                      comp |-> SelectSeq(ents, LAMBDA e : e.type = 2)]
     ELSE [ok |-> FALSE, err |-> "revision without cross-reference section"]
+
+-----------------------------------------------------------------------------
+(* Object streams (7.5.7): "num off" pairs, then the objects at First + off *)
+ParseObjStm(sv, vb) ==
+    LET d == sv.v
+        okd == /\ Has(d, NameN) /\ IntSmall(d[NameN]) /\ Has(d, NameFirst) /\ IntSmall(d[NameFirst])
+               /\ ~Has(d, NameFilter) /\ TypeNameOf(sv) = NameObjStm
+    IN IF ~okd THEN [ok |-> FALSE, objs |-> <<>>]
+       ELSE
+       LET n == IntVal(d[NameN])
+           first == IntVal(d[NameFirst])
+           rd == ReadV(sv.w, FALSE, vb)
+           its == SelectSeq(rd.items, LAMBDA it : it.it # "cmt")
+       IN IF ~rd.ok \/ Len(its) < 2 * n \/ ~(\A i \in 1..(2 * n) : IsIntVal(its[i]) /\ IntSmall(its[i].val))
+          THEN [ok |-> FALSE, objs |-> <<>>]
+          ELSE LET num(i) == IntVal(its[2 * i - 1].val)
+                   off(i) == IntVal(its[2 * i].val)
+                   at(i) == SelectInSeq(its, LAMBDA it : it.s = first + off(i) + 1)
+               IN IF \E i \in 1..n : at(i) = 0 \/ at(i) <= 2 * n \/ its[at(i)].it # "val"
+                  THEN [ok |-> FALSE, objs |-> <<>>]
+                  ELSE [ok |-> TRUE, objs |-> [i \in 1..n |-> [num |-> num(i), val |-> its[at(i)].val]]]
 
 -----------------------------------------------------------------------------
 (* The whole file *)
@@ -218,13 +240,40 @@ RdFileV(bytes, vb) ==
               \* Size exceeds every object number defined so far
               maxnum == FoldLeft(LAMBDA acc, o : IF o.num > acc THEN o.num ELSE acc, 0, allobjs)
               last == chk[Len(revs)]
+              \* cumulative object counts: objects of revision r are allobjs[base[r]+1 .. base[r+1]]
+              base == [r \in 1..(Len(revs) + 1) |-> FoldLeft(LAMBDA acc, q : acc + Len(revs[q].objs), 0, [q \in 1..(r - 1) |-> q])]
+              \* the object stream named by a type-2 entry of revision r: newest object with that number up to r
+              containerOf(r, cnum) ==
+                  LET cands == SelectSeq([i \in 1..base[r + 1] |-> i], LAMBDA i : allobjs[i].num = cnum)
+                  IN IF cands = <<>> THEN 0 ELSE cands[Len(cands)]
+              compOk(r, e) ==
+                  LET ci == containerOf(r, e.f2) IN
+                  /\ ci # 0 /\ fixed[ci].val.k = "stream"
+                  /\ LET po == ParseObjStm(fixed[ci].val, vb) IN
+                        po.ok /\ e.f3 + 1 <= Len(po.objs) /\ po.objs[e.f3 + 1].num = e.num
+              compVal(r, e) == ParseObjStm(fixed[containerOf(r, e.f2)].val, vb).objs[e.f3 + 1].val
+              badcomp == \E r \in 1..Len(revs) : \E j \in 1..Len(chk[r].comp) : ~compOk(r, chk[r].comp[j])
+              \* newest definition wins: revisions in order; within a revision plain objects, then compressed ones
+              viewOfRev(acc, r) ==
+                  LET a1 == FoldLeft(LAMBDA a, i : MapPut(a, allobjs[i].num, [gen |-> allobjs[i].gen, val |-> fixed[i].val]),
+                                     acc, [k \in 1..Len(revs[r].objs) |-> base[r] + k])
+                  IN FoldLeft(LAMBDA a, e : MapPut(a, e.num, [gen |-> 0, val |-> compVal(r, e)]), a1, chk[r].comp)
+              view == IF badcomp THEN EmptyMap ELSE FoldLeft(viewOfRev, EmptyMap, [r \in 1..Len(revs) |-> r])
+              \* every definition of every number in file order (classifier input): <<[val, where]>>, where = 0 for a
+              \* plain object, the container number for a compressed one
+              addH(acc, n, e) == MapPut(acc, n, IF n \in DOMAIN acc THEN Append(acc[n], e) ELSE <<e>>)
+              histOfRev(acc, r) ==
+                  LET a1 == FoldLeft(LAMBDA a, i : addH(a, allobjs[i].num, [val |-> fixed[i].val, where |-> 0]),
+                                     acc, [k \in 1..Len(revs[r].objs) |-> base[r] + k])
+                  IN FoldLeft(LAMBDA a, e : addH(a, e.num, [val |-> compVal(r, e), where |-> e.f2]), a1, chk[r].comp)
+              hist == IF badcomp THEN EmptyMap ELSE FoldLeft(histOfRev, EmptyMap, [r \in 1..Len(revs) |-> r])
+              compnums == UNION {{chk[r].comp[j].num : j \in 1..Len(chk[r].comp)} : r \in 1..Len(revs)}
+              maxcomp == FoldLeft(LAMBDA acc, n : IF n > acc THEN n ELSE acc, 0, SetToSeq(compnums))
               sizeok == /\ Has(last.trailer, NameSize) /\ IntSmall(last.trailer[NameSize])
-                        /\ IntVal(last.trailer[NameSize]) > maxnum
-              \* newest definition wins: later objects override earlier ones
-              view == FoldLeft(LAMBDA acc, i : MapPut(acc, allobjs[i].num, [gen |-> allobjs[i].gen, val |-> fixed[i].val]),
-                               EmptyMap, [i \in 1..Len(allobjs) |-> i])
+                        /\ IntVal(last.trailer[NameSize]) > maxnum /\ IntVal(last.trailer[NameSize]) > maxcomp
               bincmt == IF Len(items) >= 2 /\ items[2].it = "cmt" THEN items[2].v ELSE <<>>
           IN IF badfix # 0 THEN [ok |-> FALSE, err |-> "indirect stream Length does not match the stream data"]
+             ELSE IF badcomp THEN [ok |-> FALSE, err |-> "type-2 entry does not name an object stream holding that object at that index"]
              ELSE IF ~prevok \/ ~firstok THEN [ok |-> FALSE, err |-> "Prev does not chain the cross-reference sections"]
              ELSE IF ~sizeok THEN [ok |-> FALSE, err |-> "Size does not exceed every object number"]
              ELSE [ok |-> TRUE, err |-> "",
@@ -235,7 +284,8 @@ RdFileV(bytes, vb) ==
                    trailer |-> last.trailer,
                    xrefobjs |-> {chk[i].xrefobj : i \in 1..Len(revs)} \ {0},
                    kind |-> revs[Len(revs)].kind,
-                   view |-> view]
+                   view |-> view,
+                   hist |-> hist]
 
 RdFile(bytes) == RdFileV(bytes, FALSE)
 =============================================================================
